@@ -132,16 +132,18 @@ Proof.
     apply H; [eapply wf_mono; [|exact Hw]; lia|apply fresh_not_in; exact Hw|lia].
   - unfold remove_callback. rewrite partition_filter. simpl. apply wf_filter. exact Hw.
   - destruct (load_plugin_module lower world n 0); try exact Hw.
-    pose proof (load_plugin_class_wf s p false o Hx Hw) as H.
-    destruct (load_plugin_class lower s p false o). exact H.
+    set (s1 := St (s_cbs s) (s_next s) (unimp_after lower world (s_unimp s) n 0)).
+    pose proof (load_plugin_class_wf s1 p false o Hx Hw) as H.
+    destruct (load_plugin_class lower s1 p false o). exact H.
   - unfold owner_load. destruct (get_callback lower (s_cbs s) n); [exact Hw|].
+    set (s1 := St (s_cbs s) (s_next s) (unimp_after lower world (s_unimp s) n imp)).
     destruct (load_plugin_module lower world n imp); try exact Hw.
-    pose proof (load_plugin_class_wf s p initf o Hx Hw) as H.
-    destruct (load_plugin_class lower s p initf o). exact H.
+    pose proof (load_plugin_class_wf s1 p initf o Hx Hw) as H.
+    destruct (load_plugin_class lower s1 p initf o). exact H.
   - unfold owner_unload. destruct (is_owner lower n); [exact Hw|].
     destruct (get_callback lower (s_cbs s) n) as [old|]; [|exact Hw].
     unfold remove_callback. rewrite partition_filter.
-    assert (wf_st (St (filter (fun x => negb (name_is lower (cname old) x)) (s_cbs s)) (s_next s))).
+    assert (wf_st (St (filter (fun x => negb (name_is lower (cname old) x)) (s_cbs s)) (s_next s) (s_unimp s))).
     { apply wf_filter. exact Hw. }
     destruct (filter (name_is lower (cname old)) (s_cbs s)); [exact H|]. destruct dief; exact H.
   - unfold owner_reload. destruct (is_owner lower n); [exact Hw|].
@@ -150,10 +152,12 @@ Proof.
     set (good := filter (fun x => negb (name_is lower n x)) (s_cbs s)).
     assert (Hg : wf (s_next s) good) by (apply wf_filter; exact Hw).
     destruct bad as [|b0 bt] eqn:Eb; [exact Hg|].
+    destruct (existsb (seq_eqb (cname b0)) (s_unimp s)); [exact Hg|].
+    set (s1 := St good (s_next s) (unimp_after lower world (s_unimp s) n imp)).
     destruct (load_plugin_module lower world n imp).
     + destruct dief; [exact Hg|].
-      pose proof (load_plugin_class_wf (St good (s_next s)) p initf o Hx Hg) as H.
-      destruct (load_plugin_class lower (St good (s_next s)) p initf o). exact H.
+      pose proof (load_plugin_class_wf s1 p initf o Hx Hg) as H.
+      destruct (load_plugin_class lower s1 p initf o). exact H.
     + pose proof (readd_wf o (s_next s) (b0 :: bt) good Hx Hg) as H.
       destruct (readd lower o good (b0 :: bt)) as [r res]. simpl in *. apply H.
       * rewrite <- Eb. unfold good, bad.
@@ -254,12 +258,14 @@ Proof.
     destruct (add_callback lower o (s_cbs s) (mk_cb (s_next s) p)). exact H.
   - unfold remove_callback. rewrite partition_filter. simpl. apply filter_owner; assumption.
   - destruct (load_plugin_module lower world n 0); try exact Hh.
-    pose proof (load_plugin_class_owner s p false o Hx Hw Hh) as H.
-    destruct (load_plugin_class lower s p false o). exact H.
+    set (s1 := St (s_cbs s) (s_next s) (unimp_after lower world (s_unimp s) n 0)).
+    pose proof (load_plugin_class_owner s1 p false o Hx Hw Hh) as H.
+    destruct (load_plugin_class lower s1 p false o). exact H.
   - unfold owner_load. destruct (get_callback lower (s_cbs s) n); [exact Hh|].
+    set (s1 := St (s_cbs s) (s_next s) (unimp_after lower world (s_unimp s) n imp)).
     destruct (load_plugin_module lower world n imp); try exact Hh.
-    pose proof (load_plugin_class_owner s p initf o Hx Hw Hh) as H.
-    destruct (load_plugin_class lower s p initf o). exact H.
+    pose proof (load_plugin_class_owner s1 p initf o Hx Hw Hh) as H.
+    destruct (load_plugin_class lower s1 p initf o). exact H.
   - unfold owner_unload. destruct (is_owner lower n) eqn:Eo; [exact Hh|].
     destruct (get_callback lower (s_cbs s) n) as [old|] eqn:Eg; [|exact Hh].
     unfold remove_callback. rewrite partition_filter.
@@ -275,10 +281,12 @@ Proof.
     assert (Hg : wf (s_next s) good) by (apply wf_filter; exact Hw).
     assert (Hhg : owner_head good) by (apply filter_owner; assumption).
     destruct bad as [|b0 bt] eqn:Eb; [exact Hhg|].
+    destruct (existsb (seq_eqb (cname b0)) (s_unimp s)); [exact Hhg|].
+    set (s1 := St good (s_next s) (unimp_after lower world (s_unimp s) n imp)).
     destruct (load_plugin_module lower world n imp).
     + destruct dief; [exact Hhg|].
-      pose proof (load_plugin_class_owner (St good (s_next s)) p initf o Hx Hg Hhg) as H.
-      destruct (load_plugin_class lower (St good (s_next s)) p initf o). exact H.
+      pose proof (load_plugin_class_owner s1 p initf o Hx Hg Hhg) as H.
+      destruct (load_plugin_class lower s1 p initf o). exact H.
     + pose proof (readd_owner o (s_next s) (b0 :: bt) good Hx Hg) as H.
       destruct (readd lower o good (b0 :: bt)) as [r res]. simpl in *. apply H; [| |exact Hhg].
       * rewrite <- Eb. unfold good, bad.
